@@ -102,6 +102,7 @@ class Outcome:
 class Run:
     def __init__(self, prop, tier, seed):
         self.prop, self.tier, self.seed = prop, tier, seed
+        self._defer = None
         self.t0 = time.time()
         self.known = KnownFindings()
         self.outcomes = []
@@ -208,24 +209,56 @@ class Run:
                     self.queries += 1
                     self.holds(l["id"], note="(recorded counterexample does not reproduce on the current tree: %s)" % verdict)
             return []
-        jobs = [(crate, l["harness"], {"timeout": l.get("timeout", timeout)}) for l in lemmas]
-        # listed known findings of a lemma need the lemma discharged again with their roles assumed away: start those
-        # variants together with the base run (same verdict logic, only the wall time changes)
-        pre = []
-        for l in lemmas:
-            excl = l.get("exclusions") or {}
-            listed = [sw for role, sw in excl.items() if self.known.lookup(self.prop, "%s/%s" % (l["id"], role)) is not None]
-            for n in range(1, len(listed) + 1):
-                for combo in self._orders(listed, n):
-                    c2 = crate.variant("x" + "".join(x[0] for x in combo) + str(n), list(combo))
-                    self.crates.append(c2)
-                    pre.append((l, tuple(sorted(combo)), c2))
-        jobs += [(c2, l["harness"], {"timeout": l.get("timeout", timeout)}) for (l, _, c2) in pre]
-        results = kani_run.run_all(jobs, parallel)
-        self._pre = {(l["id"], combo): (c2, r) for (l, combo, c2), r in zip(pre, results[len(lemmas):])}
-        for l, r in zip(lemmas, results[:len(lemmas)]):
-            self._kani_result(crate, l, r)
-        return results
+        if self._defer is not None and self.replay is None:      # inside `with run.parallel():` -- queued, discharged together when the block ends
+            self._defer.append((crate, lemmas, timeout))
+            return []
+        return self._kani_batch([(crate, lemmas, timeout)], parallel)
+
+    def parallel(self):
+        """`with run.parallel():` -- the run.kani() calls inside are queued and their harnesses (of all crates) run concurrently;
+        verdict logic and evidence are the same as for sequential calls, only the wall time changes."""
+        run = self
+
+        class _P:
+            def __enter__(self_p):
+                run._defer = []
+
+            def __exit__(self_p, et, ev, tb):
+                batch, run._defer = run._defer, None
+                if batch:      # also when a later slice failed: what was encoded before it is still decided
+                    run._kani_batch(batch)
+                return False
+        return _P()
+
+    def _kani_batch(self, batch, parallel=None):
+        all_jobs, metas = [], []
+        for crate, lemmas, timeout in batch:
+            jobs = [(crate, l["harness"], {"timeout": l.get("timeout", timeout)}) for l in lemmas]
+            # listed known findings of a lemma need the lemma discharged again with their roles assumed away: start those
+            # variants together with the base run (same verdict logic, only the wall time changes)
+            pre = []
+            for l in lemmas:
+                excl = l.get("exclusions") or {}
+                listed = [sw for role, sw in excl.items() if self.known.lookup(self.prop, "%s/%s" % (l["id"], role)) is not None]
+                for n in range(1, len(listed) + 1):
+                    for combo in self._orders(listed, n):
+                        c2 = crate.variant("x" + "".join(x[0] for x in combo) + str(n), list(combo))
+                        self.crates.append(c2)
+                        pre.append((l, tuple(sorted(combo)), c2))
+            jobs += [(c2, l["harness"], {"timeout": l.get("timeout", timeout)}) for (l, _, c2) in pre]
+            metas.append((crate, lemmas, pre, len(all_jobs), len(jobs)))
+            all_jobs += jobs
+        results = kani_run.run_all(all_jobs, parallel)
+        if not hasattr(self, "_pre"):
+            self._pre = {}
+        out = []
+        for crate, lemmas, pre, off, n in metas:
+            res = results[off:off + n]
+            self._pre.update({(l["id"], combo): (c2, r) for (l, combo, c2), r in zip(pre, res[len(lemmas):])})
+            for l, r in zip(lemmas, res[:len(lemmas)]):
+                self._kani_result(crate, l, r)
+            out += res
+        return out
 
     @staticmethod
     def _orders(items, n):
@@ -411,7 +444,8 @@ def main(prop, build_fn):
         if a.replay:
             run.replay = json.load(open(a.replay))
             log("REPLAY file=%s lemma=%s" % (a.replay, run.replay.get("lemma")))
-        build_fn(run)
+        with run.parallel():      # the Kani harnesses of all crates of this check are discharged together (wall time only)
+            build_fn(run)
         if a.replay and not run.replayed:
             log("REPLAY: lemma %s is discharged by a custom loop; re-run `bin/check %s` to re-derive it from the current tree" % (run.replay.get("lemma"), prop))
     except slicer.SliceError as e:
